@@ -22,8 +22,8 @@ order), each child an expression, a node, a tuple/list (`grp`, arbitrarily neste
 `findN rule greedy` is `FindNodes(...).visit`; the threaded `ret` list with its `ret or default_retval()` returns
 is modelled by its denotation (concatenation: a fresh list is substituted only for an empty one).
 `scopesN` is `FindScopes`; `finder cfg q` is `ExpressionFinder(unique, with_ir_node)` with retriever query `q`,
-including `_return`'s `flatten(..., is_leaf)` (which, for a tuple owner, leaks the *raw* tuple content into the
-result — the `visit_VariableDeclaration` defect) and `find_uniques` (dict keyed by `dict_key`, last value wins,
+including `_return`'s `flatten(..., is_leaf)` (a `(tuple, finds)` pair produced by `visit_tuple` is not a leaf: if it is
+passed on to another `_return` its raw content is flattened into the result) and `find_uniques` (dict keyed by `dict_key`, last value wins,
 then `OrderedSet`, first wins; `assert isinstance(var, Expression)`).
 Core Lean only.
 -/
@@ -237,23 +237,19 @@ def ruleIs (matchUid : Nat) (o : Node) : Bool := o.uid == matchUid
 
 /-! ### FindScopes -/
 
-inductive ScopeRes where
-  | chain (ancestors : List Node)     -- `ret.append(ancestors)`
-  | bare (n : Node)                   -- inherited `FindNodes.visit_TypeDef`: `ret.append(o)`
-
 mutual
-def scopesN (m : Nat) (greedy : Bool) (anc : List Node) : Node → List ScopeRes
+/-- `FindScopes.visit_Node` / `visit_TypeDef` (the latter records the ancestors like every other node and does not
+enter the body): the result is a list of ancestor lists, each ending in the match -/
+def scopesN (m : Nat) (greedy : Bool) (anc : List Node) : Node → List (List Node)
   | .mk k u l cs h =>
-    if isTypeDef k then (if u == m then [.bare (.mk k u l cs h)] else [])
-    else
-      (if u == m then [ScopeRes.chain (anc ++ [.mk k u l cs h])] else [])
-        ++ (if u == m && greedy then [] else scopesCs m greedy (anc ++ [.mk k u l cs h]) cs)
-def scopesC (m : Nat) (greedy : Bool) (anc : List Node) : Child → List ScopeRes
+    (if u == m then [anc ++ [.mk k u l cs h]] else [])
+      ++ (if (u == m && greedy) || isTypeDef k then [] else scopesCs m greedy (anc ++ [.mk k u l cs h]) cs)
+def scopesC (m : Nat) (greedy : Bool) (anc : List Node) : Child → List (List Node)
   | .e _ => []
   | .junk _ => []
   | .n x => scopesN m greedy anc x
   | .grp cs => scopesCs m greedy anc cs
-def scopesCs (m : Nat) (greedy : Bool) (anc : List Node) : List Child → List ScopeRes
+def scopesCs (m : Nat) (greedy : Bool) (anc : List Node) : List Child → List (List Node)
   | [] => []
   | c :: cs => scopesC m greedy anc c ++ scopesCs m greedy anc cs
 end
@@ -356,7 +352,7 @@ def finderN (cfg : Cfg) (q : E → Bool) : Node → Except Err (List R)
   | .mk k u _ cs _ =>
     if isTypeDef k then ret cfg (.node u) []
     else if isVarDecl k then
-      bindE (finderT cfg q cs) fun rs =>
+      bindE (finderLeaves cfg q cs) fun rs =>
         ret cfg (.node u) (rs ++ ((initials q (symbolsOf cs)).map fun x => R.item (.e x)))
     else
       bindE (finderLeaves cfg q cs) fun rs => ret cfg (.node u) rs
